@@ -281,6 +281,20 @@ def worker(shard):
                 check_read(mido, 1, 480, [[(s, 1) for s in syms]], acc, 0)
                 check_write(mido, 1, 480, [[(s, 1) for s in syms]], acc)
         check_read(mido, 1, 480, [[('cc0', 0)] * 4, [('on1', 1)] * 3], acc, 1)
+    elif kind == 'databounds':
+        # every channel status family with its data bytes at 0, 1, 126, 127
+        # (clip=True must leave them alone), twice in a row (running status)
+        status = shard[1]
+        two = (status & 0xF0) not in (0xC0, 0xD0)
+        vals = (0, 1, 126, 127)
+        for d1 in vals:
+            for d2 in (vals if two else (None,)):
+                sym = f'chx{status:02X}-{d1}' + (f'-{d2}' if two else '')
+                for specs in ([[(sym, 0), (sym, 1)]],
+                              [[('on0', 0), (sym, 127), ('sysexV126-0-127', 1)]]):
+                    check_read(mido, 1, 480, specs, acc, 1)
+                    check_write(mido, 1, 480, specs, acc)
+        acc.sample({'data_byte_bounds_for_status': hex(status)}, cap=1)
     elif kind == 'long':
         # long payloads (block-wise readers/writers), followed by other
         # events and by another track
@@ -322,6 +336,9 @@ def run():
         shards += [('read', 0, s, nr, dev) for s in SYMBOLS]
     shards += [('clip', s) for s in ('on0', 'off0', 'cc0', 'prog', 'pitch')]
     shards += [('long', fam) for fam in ('sysexN', 'textN', 'unkN')]
+    shards += [('databounds', st) for st in (0x80, 0x8F, 0x90, 0x9F, 0xA3,
+                                             0xB0, 0xBF, 0xC0, 0xCF, 0xD5,
+                                             0xE0, 0xEF)]
     run_shards(worker, shards, rep)
     rep.coverage['exhaustive'] = True
     rep.coverage['read_deviation_bound'] = dev
@@ -339,7 +356,8 @@ def run():
         f'plain, with clip=True, with debug=True and with both (stdout captured): '
         f'identical messages. clip: every channel-message data byte replaced '
         f'by 0x80/0xF7/0xFF: clip=False raises, clip=True loads the list with '
-        f'127 there. long: sysex / text / unknown-meta payloads of 127..70000 '
+        f'127 there. data bounds: every channel status family with data bytes '
+        f'0/1/126/127 through all read options. long: sysex / text / unknown-meta payloads of 127..70000 '
         f'bytes (around 2^k) followed by other events and another track, '
         f'both directions. Non-trivial = any non-canonical choice / every write')
     rep.assumptions += [
